@@ -18,6 +18,8 @@ type KeyState struct {
 	Set      []string           `json:"set,omitempty"`
 	Z        map[string]float64 `json:"z,omitempty"`
 	Deadline int64              `json:"deadline"` // unix ms, 0 none, -2 absent
+	// DeadlineAlt (expected states only): a second admissible deadline, see Entry.DeadlineAlt.
+	DeadlineAlt int64 `json:"deadline_alt,omitempty"`
 	Note     string             `json:"note,omitempty"`
 	Hidden   int                `json:"hidden,omitempty"` // sorted-set members not returned by a full score range (NaN scores)
 }
@@ -175,7 +177,7 @@ func (m *Model) Expected(db int, key string) KeyState {
 	if e == nil {
 		return KeyState{Type: TNone, Deadline: -2}
 	}
-	ks := KeyState{Type: e.Type, Deadline: e.Deadline}
+	ks := KeyState{Type: e.Type, Deadline: e.Deadline, DeadlineAlt: e.DeadlineAlt}
 	switch e.Type {
 	case TString:
 		ks.S = e.S
@@ -364,7 +366,7 @@ func CompareKey(key string, want, got KeyState) *Diff {
 			}
 		}
 	}
-	if want.Type != TNone && want.Deadline != got.Deadline {
+	if want.Type != TNone && want.Deadline != got.Deadline && !(want.DeadlineAlt != 0 && got.Deadline == want.DeadlineAlt) {
 		return &Diff{Key: key, Part: "deadline", Want: want, Got: got}
 	}
 	return nil
